@@ -8,33 +8,41 @@ from common import S, Err, Names
 import stvlib
 
 RANK_RULES = ["STV", "IRV", "SequentialRCV", "Plurality", "SNTV", "Borda", "TopTwo", "Alaska",
-              "DominatingSets", "CondoBorda", "RandomDictator", "BoostedRandomDictator"]
+              "DominatingSets", "CondoBorda", "RandomDictator", "BoostedRandomDictator", "PluralityVeto"]
 SCORE_RULES = ["Rating", "Limited", "Cumulative", "Approval", "BlocPlurality", "GeneralRating"]
-TIED_OK = {"Plurality", "SNTV", "Borda", "RandomDictator", "BoostedRandomDictator"}
+TIED_OK = {"Plurality", "SNTV", "Borda", "RandomDictator", "BoostedRandomDictator", "PluralityVeto"}
 DETERMINISTIC = {"STV", "IRV", "SequentialRCV", "Plurality", "SNTV", "Borda", "TopTwo", "Alaska",
                  "DominatingSets", "CondoBorda", "Rating", "Limited", "Cumulative", "Approval",
                  "BlocPlurality", "GeneralRating"}
 
 
 def rule_val(rule, cfg):
+    """Encoding of a public election class + constructor arguments as the model's `wrule`."""
     tb = vk.tb_val(cfg.get("tiebreak"))
-    if rule in ("STV", "IRV", "SequentialRCV"):
+    q = rules.QUOTA.get(cfg.get("quota", "droop"), 9)
+    if rule == "STV":
         return [1, rules.stv_cfg_val(rule, cfg)]
-    if rule in ("Plurality", "SNTV"):
+    if rule == "IRV":
+        return [101, q, tb]
+    if rule == "SequentialRCV":
+        return [102, cfg.get("m", 1), q, cfg.get("simultaneous", True), tb]
+    if rule == "Plurality":
         return [2, cfg["m"], tb]
+    if rule == "SNTV":
+        return [103, cfg["m"], tb]
     if rule == "Borda":
         v = cfg.get("score_vector")
         return [3, cfg["m"], None if v is None else [common.frac(x) for x in v], tb]
     if rule == "GeneralRating":
         return [4, cfg["m"], common.frac(cfg.get("L", 1)), None if cfg.get("k") is None else common.frac(cfg["k"]), tb]
     if rule == "Rating":
-        return [4, cfg["m"], common.frac(cfg.get("L", 1)), None, tb]
+        return [104, cfg["m"], common.frac(cfg.get("L", 1)), tb]
     if rule == "Approval":
-        return [4, cfg["m"], Fraction(1), None, tb]
+        return [105, cfg["m"], tb]
     if rule == "Limited":
         return [5, cfg["m"], common.frac(cfg.get("k", 1)), tb]
     if rule == "Cumulative":
-        return [5, cfg["m"], Fraction(cfg["m"]), tb]
+        return [106, cfg["m"], tb]
     if rule == "BlocPlurality":
         return [6, cfg["m"], cfg.get("k"), tb]
     if rule == "DominatingSets":
@@ -51,6 +59,8 @@ def rule_val(rule, cfg):
         return [11, cfg["m"]]
     if rule == "BoostedRandomDictator":
         return [12, cfg["m"]]
+    if rule == "PluralityVeto":
+        return [107, cfg["m"], tb]
     raise ValueError(rule)
 
 
@@ -170,6 +180,11 @@ def gen_rule_cases(rng, n, rule_pool=None, with_scores=True):
                    "simultaneous": rng.random() < 0.6, "tiebreak": tb}
         if rule in ("CondoBorda", "DominatingSets", "RandomDictator", "BoostedRandomDictator"):
             cfg.pop("tiebreak", None)
+        if rule == "PluralityVeto":
+            for b in jp["ballots"]:
+                b["w"] = str(min(6, max(1, math.ceil(Fraction(b["w"])))))
+            if ties and cfg["tiebreak"] is None:
+                cfg["tiebreak"] = "random"
         cases.append({"rule": rule, "cfg": cfg, "profile": jp, "seed": rng.randrange(1 << 30), "family": fam})
     return cases
 
@@ -186,8 +201,6 @@ def approx_calls(calls):
 
 
 def run_rule_case(case):
-    if case["rule"] in ("STV", "IRV", "SequentialRCV"):
-        return stvlib.run_stv_case(case)
     info = rules.run_election(case)
     nm, rec, el, prof = info["nm"], info["rec"], info["election"], info["profile"]
     if isinstance(prof, Err):
@@ -199,7 +212,9 @@ def run_rule_case(case):
     else:
         expect = [vk.states_val(nm, el.election_states), approx_calls(calls), 0]
     info["script"], info["calls"] = script, calls
-    return info, {"op": 21, "arg": arg, "expect": expect, "what": "election_states+random calls"}
+    inc = case["cfg"].get("transfer") == "random" and case["cfg"].get("simultaneous", True)
+    return info, {"op": 22, "arg": arg, "expect": expect, "what": "election_states+random calls",
+                  "inconclusive_ok": inc}
 
 
 def model_post(exp, mo):
